@@ -280,3 +280,14 @@ Definition py_is_identifier (s : string) : bool :=
   | EmptyString => false
   | String c r => is_alpha c && str_forallb is_safechar r
   end.
+
+(* Node(x) for a JSON value x used as the data of a term *)
+Definition py_ndata_of_any (v : aval) : result ndata :=
+  match v with
+  | VStr s => Ok (DStr s) | VInt z => Ok (DInt z) | VFloat r => Ok (DFloat r) | VBool b => Ok (DBool b)
+  | _ => Err TypeError
+  end.
+
+(* functools.reduce(f, l) without initial value: TypeError on an empty sequence *)
+Definition py_reduce {A} (f : A -> A -> A) (l : list A) : result A :=
+  match l with [] => Err TypeError | x :: xs => Ok (fold_left f xs x) end.
